@@ -5,3 +5,10 @@ cd "$(dirname "$0")/.."
 export CARGO_NET_OFFLINE=true
 (cd driver && cargo build --release --offline)
 python3 engine/facts.py
+# warm the witness target dir (compiles /repo once for the compile-fail witnesses)
+python3 - <<'PY'
+import sys, os
+sys.path.insert(0, os.path.join(os.getcwd(), "engine"))
+import check, witness
+witness.run(check.Report("C14", "quick"), "C14")
+PY
